@@ -538,4 +538,141 @@ example : InBounds (lens4 (16 * 3) (16 * 4) (16 * 4 * 5) (16 + 8 * 4)) (vmpApply
 theorem vmp_apply_tmp_too_small_counterexample :
     ¬ InBounds (lens4 (16 * 3) (16 * 4) (16 * 4 * 5) (16 + 8 * 4 - 1)) (vmpApply 8 3 4 4 5 0) := by decide
 
+/-! ### FFT64 convolution -/
+
+/-- **`convolution_prepare` / `convolution_prepare_self`**, one column `i < cols` of the prepared operand, stated for
+an arbitrary number `copyRows` of limbs gathered out of the temporary.  Obligations of the HAL wrapper: the temporary is
+a one-column `VecZnxDft` of `tmpSize` limbs (`take_vec_znx_dft(module, 1, tmpSize)`), and
+**`copyRows ≤ tmpSize`** ("temporary size ≥ read set"), `copyRows ≤ resSize`, `min(resSize, aSize) ≤ tmpSize`.
+The shipped code has `copyRows = tmpSize = min(res.size(), a.size())` (`cnv_prepare_in_bounds`). -/
+theorem cnv_prepare_col_in_bounds (m cols resSize aSize tmpSize i copyRows : Nat) (hm : m % 4 = 0) (hi : i < cols)
+    (hcopy : copyRows ≤ tmpSize) (hcr : copyRows ≤ resSize) (hmin : min resSize aSize ≤ tmpSize) :
+    InBounds (lens4 (2 * m * cols * resSize) 0 0 (2 * m * tmpSize)) (cnvPrepareCol m resSize aSize tmpSize 1 i copyRows) := by
+  unfold cnvPrepareCol
+  simp only []
+  have hmr : min resSize aSize ≤ resSize := Nat.min_le_left _ _
+  generalize hM : min resSize aSize = minSize at *
+  refine inb_append (inb_append (inb_map (fun j hj => ?_)) (inb_ite (fun h => inb_cons ?_ (inb_nil _)) (fun _ => inb_nil _)))
+    (inb_flatMap (fun blk hblk => ?_))
+  · have hj' : j < tmpSize := List.mem_range.mp hj
+    simp only [wt, lens4, Nat.mul_one]
+    have := at_fit (n := 2 * m) (j := j) (C := 1) (c := 0) (S := tmpSize) hj' (by omega)
+    simp only [Nat.mul_one, Nat.add_zero] at this; exact this
+  · simp only [wt, lens4, Nat.mul_one]
+    have := at_fit (n := 2 * m) (j := minSize - 1) (C := 1) (c := 0) (S := tmpSize) (by omega) (by omega)
+    simp only [Nat.mul_one, Nat.add_zero] at this; exact this
+  · have hb : blk < m / 4 := List.mem_range.mp hblk
+    have e8 : blk * resSize * 8 = blk * (resSize * 8) := Nat.mul_assoc _ _ _
+    refine inb_append (extract1blk_inb' m copyRows blk _ _ ?_ ?_) (inb_cons ?_ (inb_nil _))
+    · by_cases h0 : copyRows = 0
+      · exact Or.inl h0
+      · right
+        simp only [lens4]
+        have k := rows_fit (rowMax := copyRows) (m := m) (aSize := tmpSize) (by omega) hcopy
+        have e : 4 * (m / 4) = m := by omega
+        rw [e]; omega
+    · simp only [lens4]
+      have k := cnv_blk_fit (m := m) (col := i) (C := cols) (S := resSize) (blk := blk) (x := 8 * copyRows) hm hi hb (by omega)
+      omega
+    · simp only [wt, lens4]
+      have k := cnv_blk_fit (m := m) (col := i) (C := cols) (S := resSize) (blk := blk) (x := resSize * 8) hm hi hb (Nat.le_refl _)
+      have e9 : (blk + 1) * resSize * 8 = blk * (resSize * 8) + resSize * 8 := by
+        rw [Nat.mul_assoc, Nat.add_mul, Nat.one_mul]
+      omega
+example : InBounds (lens4 (16 * 2 * 3) 0 0 (16 * 2)) (cnvPrepareCol 8 3 2 2 1 1 2) := by decide
+
+/-- the shipped wrapper + kernel pair: `tmp` has `min(res.size(), a.size())` limbs and exactly that many are gathered -/
+theorem cnv_prepare_in_bounds (m cols resSize aSize i : Nat) (hm : m % 4 = 0) (hi : i < cols) :
+    InBounds (lens4 (2 * m * cols * resSize) 0 0 (2 * m * min resSize aSize))
+      (cnvPrepareCol m resSize aSize (min resSize aSize) 1 i (min resSize aSize)) :=
+  cnv_prepare_col_in_bounds m cols resSize aSize _ i _ hm hi (Nat.le_refl _) (Nat.min_le_left _ _) (Nat.le_refl _)
+example : (0 : Nat) < 2 ∧ (8 : Nat) % 4 = 0 := by decide
+
+/-- without "temporary size ≥ read set": gathering `res.size()` limbs out of a temporary of `min(res.size(), a.size())`
+limbs (the seeded change) reads past the temporary — the obligation `copyRows ≤ tmpSize` is exactly what fails -/
+theorem cnv_prepare_copy_res_size_counterexample :
+    ¬ InBounds (lens4 (16 * 1 * 3) 0 0 (16 * min 3 1)) (cnvPrepareCol 8 3 1 (min 3 1) 1 0 3) := by decide
+
+/-- **`convolution_apply_dft`** (and the `col_i = col_j` path of `convolution_pairwise_apply_dft`).  Contract: `4 ∣ m`;
+`a_size, b_size ≥ 1` (asserted by `reim4_convolution`); `res_col < res.cols()` (asserted by `at_mut`);
+`tmp.len() ≥ 8·min_size` (`convolution_apply_dft_tmp_bytes`); **and `a_col < a.cols()`, `b_col < b.cols()`, which the
+code does not check** (`&a_raw[a_col·n·a_size..]` only panics for `a_col > a.cols()`). -/
+theorem cnv_apply_in_bounds (m resSize resCols resCol aSize aCols aCol bSize bCols bCol cnvOffset tmpLen : Nat) (hm : m % 4 = 0)
+    (ha1 : 1 ≤ aSize) (hb1 : 1 ≤ bSize) (hrc : resCol < resCols) (hac : aCol < aCols) (hbc : bCol < bCols)
+    (htmp : 8 * min resSize (aSize + bSize - 1) ≤ tmpLen) :
+    InBounds (lens4 (2 * m * resCols * resSize) (2 * m * aCols * aSize) (2 * m * bCols * bSize) tmpLen)
+      (cnvApply m resSize resCols resCol aSize aCol bSize bCol cnvOffset) := by
+  unfold cnvApply
+  simp only []
+  have hmr : min resSize (aSize + bSize - 1) ≤ resSize := Nat.min_le_left _ _
+  generalize hM : min resSize (aSize + bSize - 1) = minSize at *
+  refine inb_append (inb_flatMap (fun blk hblk => ?_)) (inb_map (fun j hj => ?_))
+  · have hb : blk < m / 4 := List.mem_range.mp hblk
+    refine inb_append (conv_inb _ _ _ _ _ _ _ ha1 (by simp only [lens4]; omega) ?_ ?_) (inb_flatMap (fun k hk => ?_))
+    · simp only [lens4]
+      have := cnv_blk_fit (m := m) (col := aCol) (C := aCols) (S := aSize) (blk := blk) (x := 8 * aSize) hm hac hb (by omega)
+      omega
+    · simp only [lens4]
+      have := cnv_blk_fit (m := m) (col := bCol) (C := bCols) (S := bSize) (blk := blk) (x := 8 * bSize) hm hbc hb (by omega)
+      omega
+    · have hk' : k < minSize := List.mem_range.mp hk
+      refine save1blk_inb _ _ _ _ ?_ (by simp only [lens4]; omega)
+      simp only [lens4]
+      have := at_fit (n := 2 * m) (j := k) (C := resCols) (c := resCol) (S := resSize) (by omega) hrc
+      omega
+  · have hj' := List.mem_range'_1.mp hj
+    simp only [wt, lens4]
+    exact at_fit (by omega) hrc
+example : InBounds (lens4 (16 * 2 * 3) (16 * 2 * 2) (16 * 1 * 3) (8 * 3)) (cnvApply 8 3 2 1 2 1 3 0 1) := by decide
+
+/-- the missing precondition is necessary: `a_col = a.cols()` (one past the last column) passes every check of the
+reference wrapper (`&a_raw[len..]` is an empty slice) and the AVX kernel then loads `8·a_size` doubles past the operand -/
+theorem cnv_apply_a_col_counterexample :
+    ¬ InBounds (lens4 (16 * 1 * 1) (16 * 1 * 1) (16 * 1 * 1) 8) (cnvApply 8 1 1 0 1 1 1 0 0) := by decide
+
+/-- **`convolution_by_const_apply`** with the AVX `i64_extract_1blk_contiguous_avx`, `i64_convolution_by_const_{1,2}coeff_avx`,
+`i64_save_1blk_contiguous_avx`.  Contract: `8 ∣ n`, `a_size ≥ 1` (asserted), `tmp.len() ≥ 8·(min_size + a_size)`
+(`convolution_by_const_apply_tmp_bytes`); **and `a_col < a.cols()`, `res_col < res.cols()`, unchecked when
+`min_size = res_size`**. -/
+theorem cnv_by_const_in_bounds (n resSize resCols resCol aSize aCols aCol bSize cnvOffset tmpLen : Nat) (hn : n % 8 = 0)
+    (ha1 : 1 ≤ aSize) (hrc : resCol < resCols) (hac : aCol < aCols)
+    (htmp : 8 * (min resSize (aSize + bSize - 1) + aSize) ≤ tmpLen) :
+    InBounds (lens4 (n * resCols * resSize) (n * aCols * aSize) bSize tmpLen)
+      (cnvByConst n resSize resCols resCol aSize aCols aCol bSize cnvOffset) := by
+  unfold cnvByConst
+  simp only []
+  have hmr : min resSize (aSize + bSize - 1) ≤ resSize := Nat.min_le_left _ _
+  generalize hM : min resSize (aSize + bSize - 1) = minSize at *
+  have hn4 : n % 4 = 0 := by omega
+  refine inb_append (inb_flatMap (fun blk hblk => ?_)) (inb_map (fun j hj => ?_))
+  · have hb : blk < n / 8 := List.mem_range.mp hblk
+    refine inb_append (inb_append (i64extract_inb _ _ _ _ _ _ ?_ (by simp only [lens4]; omega))
+      (convConst_inb _ _ _ _ _ _ _ ha1 (by simp only [lens4]; omega) (by simp only [lens4]; omega) (by simp only [lens4]; omega)))
+      (i64save_inb _ _ _ _ _ _ ?_ (by simp only [lens4]; omega))
+    · right
+      simp only [lens4, stride4 hn4]
+      have k := at_fit (n := n) (j := aSize - 1) (C := aCols) (c := aCol) (S := aSize) (by omega) hac
+      have e : (aSize - 1) * (n * aCols) = n * ((aSize - 1) * aCols) := by
+        rw [Nat.mul_comm (aSize - 1) (n * aCols), Nat.mul_assoc, Nat.mul_comm aCols]
+      rw [Nat.mul_add] at k
+      omega
+    · by_cases h0 : minSize = 0
+      · exact Or.inl h0
+      · right
+        simp only [lens4, stride4 hn4]
+        have k := at_fit (n := n) (j := minSize - 1) (C := resCols) (c := resCol) (S := resSize) (by omega) hrc
+        have e : (minSize - 1) * (n * resCols) = n * ((minSize - 1) * resCols) := by
+          rw [Nat.mul_comm (minSize - 1) (n * resCols), Nat.mul_assoc, Nat.mul_comm resCols]
+        rw [Nat.mul_add] at k
+        omega
+  · have hj' := List.mem_range'_1.mp hj
+    simp only [wt, lens4]
+    exact at_fit (by omega) hrc
+example : InBounds (lens4 (8 * 2 * 2) (8 * 2 * 2) 3 (8 * (2 + 2))) (cnvByConst 8 2 2 1 2 2 0 3 1) := by decide
+
+/-- `res_col = res.cols()` with `min_size = res_size` (no `zero_at` assertion is reached): the AVX save stores 8 `i64`
+past the end of `res` — an out-of-bounds **write** -/
+theorem cnv_by_const_res_col_counterexample :
+    ¬ InBounds (lens4 (8 * 1 * 1) (8 * 1 * 1) 1 (8 * (1 + 1))) (cnvByConst 8 1 1 1 1 1 0 1 0) := by decide
+
 end C17
